@@ -1,32 +1,31 @@
 import JL.Generated.Fns
+import JL.Lemmas.TieLoops
 /-! tie: `merge`, as translated from the crate's current source, is the model's function - for every input -/
 namespace JL.Tie
-open JL
+open JL JL.Lemmas.TieLoops
+set_option linter.unusedSimpArgs false  -- which of the listed facts are used depends on how the source is spelled
 
-/-- a loop that only appends each item to its state -/
-theorem for_push {α ρ : Type} (xs : List α) (acc : List α) (body : List α → α → Rs.Flow (List α) ρ)
-    (hb : ∀ a x, body a x = Rs.Flow.next (a ++ [x])) : Rs.for_ xs acc body = Rs.LoopOut.done (acc ++ xs) := by
-  induction xs generalizing acc with
-  | nil => simp [Rs.for_]
-  | cons x xs ih => simp [Rs.for_, hb, ih]
-
-theorem foldl_merge (items : List Json) (acc : List Json) (step : List Json → Json → List Json)
-    (hs : ∀ a i, step a i = a ++ (match i with | .arr xs => xs | v => [v])) :
-    items.foldl step acc = acc ++ ArrOp.merge items := by
-  induction items generalizing acc with
-  | nil => simp [ArrOp.merge]
-  | cons i is ih =>
-      rw [List.foldl_cons, ih, hs]
-      cases i <;> simp [ArrOp.merge, List.append_assoc]
-
+/- The accumulation over the operands (a `fold` or a `for` loop) is brought to `List.foldl mergeStep` by `rs_loop_foldl`; the
+model side is `foldl_mergeStep`. In the step equation, an array operand is spliced in by an inner loop (or by `extend`): that
+loop is brought to `List.foldl (· ++ [·])` the same way (`foldl_push`). -/
 theorem merge (items : List Json) : Gen.merge items = some (.arr (ArrOp.merge items)) := by
   unfold Gen.merge
-  simp only [rs]
-  rw [foldl_merge items [] _ (by
+  simp only [Rs.new_]
+  rs_loop_foldl mergeStep
+  case hb =>
     intro a i
-    cases i <;> simp [rs]
-    rename_i xs
-    rw [for_push xs a _ (by intro a x; rfl)])]
-  simp
+    cases i with
+    | arr xs =>
+        first
+          | (rs_loop_foldl (fun (a : List Json) (x : Json) => a ++ [x])
+             case hb => intro a x; first | rfl | simp [rs]
+             all_goals (simp only [foldl_push]; simp [rs, mergeStep]))
+          | simp [rs, mergeStep]
+    | null => first | rfl | simp [rs, mergeStep]
+    | bool b => first | rfl | simp [rs, mergeStep]
+    | num n => first | rfl | simp [rs, mergeStep]
+    | str s => first | rfl | simp [rs, mergeStep]
+    | obj kvs => first | rfl | simp [rs, mergeStep]
+  all_goals simp [rs, foldl_mergeStep]
 
 end JL.Tie
